@@ -27,16 +27,37 @@ LEVEL_TEXT = ("Coq theorems over the C01 meiosis model (crossover indicator = dr
               "differ at every marker reveals the source copy of its gametes. The model is tied to the code by evaluating it inside Coq "
               "on scripted boundary draws and on real PCG64 draws (exact rationals of the binary64 values) against mat_*/dense_* outputs, "
               "the last meiosis of all seven mating protocols, interp_xoprob (1/2 exactly at chromosome starts, Coq-Interval enclosure "
-              "of the map function elsewhere) and the expected-maximum-breeding-value matrix")
+              "of the map function elsewhere) and the expected-maximum-breeding-value matrix. Independently of the generated cases, the BODY of "
+              "mat_meiosis/dense_meiosis (shape and range of the draws, the comparison draw < xoprob, starting phase and index, segment copy, "
+              "phase toggle, statement order, row of the draws per gamete), mat_dh/mat_mate and their dense_ copies, both map functions, the "
+              "distance expressions of gdist1g (+inf at chromosome starts, this - previous elsewhere) and the wiring of rprob1g/interp_xoprob/"
+              "from_gmod are regenerated from the source on every run (Gen/C02_Kernel.v), proved equal to the C01 model (segment-copy loop = "
+              "per-marker gamete, by induction), and the rate/segregation/provenance/row-indexing/Haldane-composition theorems are restated about "
+              "the generated definitions (C02_kernel_*); sessions: the k-th meiosis call of any sequence of calls on one generator equals the "
+              "meiosis of the state handed to call k on the k-th matrix of draws (no stale state); stored probabilities outside [0,1] act as "
+              "never/always, the effective probability is monotone in the stored one and stays >= 1/2 for stored values >= 1/2 (no clipping)")
 LEVEL_NOTE = ("trusted: Coq kernel + vm_compute, classical reals, Coq-Interval; numpy's PCG64/uniform produce independent draws uniform on "
               "{k/2^53} (the convergence claim for the *real* streams rests on this; the monitor only samples it at fixed seeds); "
               "the statistical monitor is supporting evidence (exact two-sided binomial acceptance intervals, per-statistic alpha 1e-14), "
               "not a proof; for multi-stage protocols only the last meiosis is observed (earlier ones are the same function, checked by C01); "
-              "Kosambi is claimed for adjacent markers only; theorems are about the Gallina model, the tie to the code is differential")
+              "Kosambi is claimed for adjacent markers only; theorems are about the Gallina model; the tie to the code is differential plus "
+              "the statement-level translator harness/translate/c02_kernel.py (trusted, fail closed: an unrecognised statement in the translated "
+              "functions is reported as a broken correspondence); numpy.unique/zip bookkeeping of gdist1g and scipy's interpolation are compared "
+              "only dynamically")
 TECHNIQUE = ("Coq proof (finite product measures over Q and R, Fourier/sign expansion) over the C01 executable model; in-Coq vm_compute "
              "correspondence with scripted and real draws; statistical monitor with exact binomial budgets")
 ALPHA = 1e-14
-RULE = ("case kinds: util (mat_/dense_ meiosis|dh|mate; parents with distinct allele codes per copy; binary64 xoprob from {0, 5e-324, 2^-53, 2^-10, "
+RULE = ("entry points are enumerated at run time (inspect/pkgutil over the anchored modules; a new public function, protocol class, method or "
+        "parameter fails the check until classified in COVERED/SKIPPED); lifecycle: protocol cases with non-default progeny/family counters, miscout, "
+        "generator passed by constructor | rng setter | global_prng default, genotype matrix direct | copy | deepcopy | select_taxa | mat setter, "
+        "sessions (an earlier mate() on the same protocol and matrix with other crossover probabilities, then vrnt_xoprob replaced by setter | in "
+        "place | new object) and second-generation calls (progeny of an earlier call as parents: the progeny must carry the parents' xoprob); map "
+        "cases with an earlier interp_xoprob of the same matrix on another map/function, gaps of 2^-40..1e-9 Morgan next to exact zeros, gaps up "
+        "to 6 Morgans, base-pair-scale physical positions, > 255 markers, and rprob1g/rprob1p/mapfn(gdist1g|gdist1p)/interp_genpos compared bit "
+        "for bit with what interp_xoprob stored; util cases with 130-300 markers/individuals, genotype dtypes int8|int16|int64|uint8, selection "
+        "dtypes int64|int32|intp|uint16, crossover probabilities outside [0,1] and below the 2^-53 grid; aliasing: results are fresh writable arrays "
+        "(writing into one layer changes neither the other layer nor an input), mate() leaves matrix, xoprob and xconfig unchanged; "
+        "case kinds: util (mat_/dense_ meiosis|dh|mate; parents with distinct allele codes per copy; binary64 xoprob from {0, 5e-324, 2^-53, 2^-10, "
         "0.1, 1/4, 1/3, 1/2, 1-2^-10, 1-2^-53, 1, random}; draws scripted on the 2^-53 grid at the comparison boundary (smallest grid point >= p: no "
         "crossover, the one below: crossover), 0 and 1-2^-53, or real PCG64; all 2^m crossover patterns for m <= 5/8), proto (the seven "
         "protocols, distinct founders, scripted draws, provenance of the last meiosis), map (Standard|Extended map, M|cM, Haldane|Kosambi, "
@@ -50,7 +71,8 @@ TRUSTED = ["numpy Generator.uniform(0,1) on PCG64 returns k/2^53 with k uniform 
            "logged draw is on that grid; independence/uniformity only sampled by the monitor)",
            "scipy.stats.binom cdf/sf/ppf used to compute the acceptance intervals of the monitor",
            "rngscript.Scripted subclass handing out scripted draws; monkey-patched module attribute global_prng in the EMBV module",
-           "Model/C01_Meiosis.v and Model/C11_MapFn.v (owned by C01/C11) are imported unchanged"]
+           "Model/C01_Meiosis.v and Model/C11_MapFn.v (owned by C01/C11) are imported unchanged",
+           "harness/translate/c02_kernel.py (ast -> Gen/C02_Kernel.v, statement-level for the meiosis functions, fail closed) and translate/pyexpr.py"]
 ASSUMPTIONS = ["crossover probabilities are finite binary64 values (the theorems hold for every rational, also outside [0,1], where the effective probability is clipped)",
                "genotype arrays have two phases; parents of the observed meiosis carry distinct allele codes on their two copies",
                "genetic maps are monotone within a chromosome (non-negative gaps); markers lie on chromosomes present in the map"]
@@ -60,7 +82,8 @@ PROTOS = ["SelfCross", "TwoWayCross", "TwoWayDHCross", "ThreeWayCross", "ThreeWa
 NPAR = {"SelfCross": 1, "TwoWayCross": 2, "TwoWayDHCross": 2, "ThreeWayCross": 3, "ThreeWayDHCross": 3, "FourWayCross": 4, "FourWayDHCross": 4}
 PREFIX = {"SelfCross": "sx", "TwoWayCross": "2w", "TwoWayDHCross": "dh", "ThreeWayCross": "3w", "ThreeWayDHCross": "dh", "FourWayCross": "4w", "FourWayDHCross": "dh"}
 UTILS = [(m, f) for m in ("mat", "dense") for f in ("meiosis", "dh", "mate")]
-XOSET = [0.0, 5e-324, 2.0 ** -53, 2.0 ** -10, 0.1, 0.25, 1.0 / 3.0, 0.5, 1.0 - 2.0 ** -10, 1.0 - 2.0 ** -53, 1.0]
+XOSET = [0.0, 5e-324, 2.0 ** -60, 2.0 ** -53, 2.0 ** -40, 2.0 ** -10, 0.1, 0.25, 1.0 / 3.0, 0.5, 0.5 + 2.0 ** -53, 0.75, 1.0 - 2.0 ** -10,
+         1.0 - 2.0 ** -53, 1.0, 1.5, -0.25]
 
 def fx(x): return float(x).hex()
 def xf(s): return float.fromhex(s)
@@ -115,11 +138,17 @@ def _xoprob(rng, p, mode):
         else: xo.append(rng.random())
     return xo, sorted(starts)
 
-def _geno(rng, n, p, mode):
+def _geno(rng, n, p, mode, off=0):
     if mode == "const":        # allele = 2*founder + copy at every marker
-        return [[[2 * i + c for _ in range(p)] for i in range(n)] for c in range(2)]
-    # allele identifies (founder, copy) and changes along the chromosome, wrapping in int8 (31 is odd: injective mod 256)
-    return [[[((2 * i + c) * 31 + 7 * j) % 256 - 128 for j in range(p)] for i in range(n)] for c in range(2)]
+        return [[[2 * i + c + off for _ in range(p)] for i in range(n)] for c in range(2)]
+    # allele identifies (founder, copy) and changes along the chromosome, wrapping in int8 (31 is odd: injective mod 256);
+    # the two copies of one individual always differ (by 31 mod 256), whatever the number of individuals
+    # (individuals i and i + 128 would coincide mod 256: the last term tells them apart without touching the copy difference)
+    return [[[((2 * i + c) * 31 + 7 * j + (i // 128) * 2 * (j % 5 + 1)) % 256 - 128 + off for j in range(p)] for i in range(n)] for c in range(2)]
+
+GDT = {"int8": 0, "int16": 1000, "int64": 100000, "uint8": 128}       # genotype dtype -> offset added to the allele codes
+SELDT = ["int64", "int32", "intp", "uint16"]
+def _goff(case): return GDT[case.get("gdtype", "int8")]
 
 def _boundary(q):
     """smallest grid numerator k with k/2^53 >= q (no crossover for the draw k/2^53; k-1 crosses over)"""
@@ -151,8 +180,25 @@ def _util_case(rng, module, fn, real=False):
     rows = k
     if fn == "mate":
         c["n2"] = rng.choice([1, 2, 3, 5]); c["sel2"] = [rng.randrange(c["n2"]) for _ in range(k)]; rows = 2 * k
+    if rng.random() < 0.4: c["gdtype"] = rng.choice(list(GDT)); c["seldtype"] = rng.choice(SELDT)
     if real: c["seed"] = rng.randrange(2 ** 31)
     else: c["pool"] = _pool(rng, xo, rows, 3, "none" if rng.random() < 0.04 else "mix")
+    return c
+
+def _wide_case(rng, module, fn, big_n=None):
+    """more markers / individuals than a narrow integer can count; non-default dtypes of the genotype and selection arrays"""
+    n = rng.choice([1, 3, 130, 300]) if big_n is None else (rng.choice([130, 300]) if big_n else rng.choice([1, 3]))
+    p = 130 if n > 3 else rng.choice([130, 260, 300])
+    xo = [rng.choice([0.0, 0.0, 0.0, 0.5, 1.0, 2.0 ** -10, 0.25]) for _ in range(p)]
+    for j in (0, 126, 127, 128, 129, 254, 255, 256, 257, p - 1):
+        if j < p: xo[j] = rng.choice([0.5, 1.0, 0.75])
+    k = rng.choice([1, 2, 3])
+    c = {"kind": "util", "module": module, "fn": fn, "n": n, "p": p, "gmode": "walk", "xoprob": [fx(x) for x in xo],
+         "sel": [n - 1] + [rng.choice([0, n - 1, rng.randrange(n)]) for _ in range(k - 1)], "gdtype": rng.choice(list(GDT)), "seldtype": rng.choice(SELDT)}
+    rows = k
+    if fn == "mate":
+        c["n2"] = rng.choice([1, 2, 200]); c["sel2"] = [c["n2"] - 1] + [rng.choice([0, c["n2"] - 1]) for _ in range(k - 1)]; rows = 2 * k
+    c["pool"] = _pool(rng, xo, rows, 3)
     return c
 
 def _sweep_case(module, m):
@@ -204,30 +250,62 @@ def _proto_case(rng, proto, G=None, real=False):
     nml = [nm] * ncross if isinstance(nm, int) else nm; npl = [np_] * ncross if isinstance(np_, int) else np_
     n1 = sum(nml); nt = sum(a * b for a, b in zip(nml, npl))
     rows = 6 * n1 + 2 * nt * (2 + nself) + 4
+    # lifecycle: non-default counters, optional miscout, how the generator and the genotype matrix reach the protocol,
+    # and what happened to the same protocol object / genotype matrix BEFORE the observed call
+    if rng.random() < 0.6:
+        c["pc"] = rng.choice([0, 7, 123456, 9999990]); c["fc"] = rng.choice([0, 3, 1000])
+        c["miscout"] = rng.random() < 0.5
+        c["rngroute"] = rng.choice(["ctor", "setter", "global"])
+        c["groute"] = rng.choice(["direct", "copy", "deepcopy", "select_taxa", "setter_mat"])
+    r = rng.random()
+    if proto == "TwoWayCross" and nself == 0 and r < 0.7: r = 0.4 if r < 0.4 else 0.1
+    if r < 0.3:
+        # session: an earlier call on the same objects with OTHER crossover probabilities, then an update of the matrix
+        xo0, _ = _xoprob(rng, p, rng.choice(["map", "set", "rand"]))
+        c["pre"] = {"kind": "session", "xoprob0": [fx(x) for x in xo0], "xconfig": [rng.sample(range(n), npar)], "nmating": 1, "nprogeny": rng.choice([1, 2]),
+                    "update": rng.choice(["setter", "inplace", "newobj"])}
+        rows += 6 + 2 * 2 * (2 + nself) + 4
+    elif r < 0.45 and proto == "TwoWayCross" and nself == 0:
+        # second generation: the observed call takes the progeny of an earlier call of the same protocol object as parents
+        x1 = [rng.sample(range(n), 2) for _ in range(rng.choice([2, 3]))]
+        m1 = rng.choice([1, 2]); p1 = rng.choice([1, 2]); N1 = len(x1) * m1 * p1
+        c["pre"] = {"kind": "gen1", "xconfig": x1, "nmating": m1, "nprogeny": p1}
+        c["xconfig"] = [rng.sample(range(N1), 2) for _ in range(ncross)]
+        rows += 2 * len(x1) * m1 * p1 + 4
     if real: c["seed"] = rng.randrange(2 ** 31)
     else: c["pool"] = _pool(rng, xo, rows, 3)
     return c
 
-def _gen_map(rng):
-    """monotone map rows [chr, phy, genpos] with power-of-two or arbitrary physical gaps"""
+def _gen_map(rng, scale="unit", pscale=1):
+    """monotone map rows [chr, phy, genpos] with power-of-two or arbitrary physical gaps.
+    scale: "unit" gaps around 1 Morgan; "tiny" gaps of 2^-40 .. 1e-9 Morgan next to exact zeros (an isclose/tolerance test in the
+    distance or map-function code would flatten them); "long" gaps up to 2 Morgans per knot interval, 8 per chromosome (map functions close to, but below, 1/2);
+    pscale multiplies the physical positions (base pairs rather than toy units)"""
     nchr = rng.choice([1, 2, 2, 3, 4])
     labels = sorted(rng.sample(range(1, 12), nchr))
+    return _gen_map_for(rng, labels, scale, pscale), labels
+
+def _gen_map_for(rng, labels, scale="unit", pscale=1):
     rows = []
     for c in labels:
         k = rng.choice([2, 3, 4, 5])
         pos = sorted(rng.sample(range(1, 200), k))
         g = 0.0; gens = []
         for _ in range(k):
-            gens.append(g); g += rng.choice([0.0, 1 / 64, 0.125, 0.25, 0.7, rng.random() * 0.6, rng.random() * 3.0])
-        rows += [[c, x, fx(v)] for x, v in zip(pos, gens)]
+            gens.append(g)
+            if scale == "tiny": g += rng.choice([0.0, 2.0 ** -40, 2.0 ** -30, 1e-9, 3e-9, 2.0 ** -20, rng.random() * 1e-8])
+            elif scale == "long": g += rng.choice([0.5, 1.0, 2.0, rng.random() * 2.0])
+            else: g += rng.choice([0.0, 1 / 64, 0.125, 0.25, 0.7, rng.random() * 0.6, rng.random() * 3.0])
+        rows += [[c, x * pscale, fx(v)] for x, v in zip(pos, gens)]
     rng.shuffle(rows)
-    return rows, labels
+    return rows
 
-def _gen_markers(rng, rows, labels, single_ok=True):
+def _gen_markers(rng, rows, labels, single_ok=True, many=False):
     mk = []
     for c in labels:
         xs = sorted(r[1] for r in rows if r[0] == c)
         k = rng.choice([1, 2, 3, 4, 5]) if single_ok else rng.choice([2, 3, 4])
+        if many: k = rng.choice([90, 140])
         for _ in range(k):
             t = rng.random()
             if t < 0.3: x = rng.choice(xs)
@@ -239,12 +317,23 @@ def _gen_markers(rng, rows, labels, single_ok=True):
     rng.shuffle(mk)
     return mk
 
-def _map_case(rng):
-    rows, labels = _gen_map(rng)
+def _map_case(rng, many=False):
+    scale = rng.choice(["unit", "unit", "tiny", "long"]); pscale = rng.choice([1, 1, 1000, 10 ** 6])
+    rows, labels = _gen_map(rng, scale, pscale)
     units = "M" if rng.random() < 0.75 else "cM"
     if units == "cM": rows = [[c, x, fx(xf(g) * 100.0)] for c, x, g in rows]
-    return {"kind": "map", "cls": rng.choice(["std", "ext"]), "units": units, "rows": rows, "mk": _gen_markers(rng, rows, labels),
-            "fn": rng.choice(["haldane", "kosambi"]), "gmat": rng.choice(["phased", "unphased"])}
+    c = {"kind": "map", "cls": rng.choice(["std", "ext"]), "units": units, "rows": rows, "mk": _gen_markers(rng, rows, labels, many=many),
+         "fn": rng.choice(["haldane", "kosambi"]), "gmat": rng.choice(["phased", "unphased"]), "scale": scale}
+    if pscale > 1 or many:                      # markers strictly inside the knots too (the toy scale only has integer positions)
+        for q in c["mk"]:
+            xs = sorted(r[1] for r in rows if r[0] == q[0])
+            if rng.random() < 0.7: q[1] = rng.randint(xs[0], xs[-1])
+    # lifecycle: how the matrix was obtained, and an earlier interpolation of the SAME matrix with another map / map function
+    if rng.random() < 0.5: c["groute"] = rng.choice(["copy", "deepcopy", "select_taxa", "setter_mat"])
+    if rng.random() < 0.4:
+        r0 = _gen_map_for(rng, labels, rng.choice(["unit", "long"]), pscale)             # same chromosomes, another map
+        c["pre"] = {"rows": r0, "units": "M", "cls": rng.choice(["std", "ext"]), "fn": rng.choice(["haldane", "kosambi"])}
+    return c
 
 def _embv_case(rng):
     n = rng.choice([1, 2, 3, 4]); p = rng.choice([1, 2, 3, 4, 6])
@@ -255,7 +344,8 @@ def _embv_case(rng):
     nrp = rng.choice([1, 2, 4]) if rng.random() < 0.5 else [rng.choice([1, 2, 3]) for _ in range(n)]
     npl = [npg] * n if isinstance(npg, int) else npg; nrl = [nrp] * n if isinstance(nrp, int) else nrp
     rows = sum(a * b for a, b in zip(npl, nrl))
-    return {"kind": "embv", "geno": geno, "xoprob": [fx(x) for x in xo], "nprogeny": npg, "nrep": nrp,
+    return {"kind": "embv", "groute": rng.choice(["direct", "direct", "copy", "deepcopy", "select_taxa", "xosetter"]),
+            "geno": geno, "xoprob": [fx(x) for x in xo], "nprogeny": npg, "nrep": nrp,
             "beta": [[rng.randint(-512, 512) for _ in range(t)] for _ in range(q)],            # numerators over 2^8
             "u": [[rng.randint(-256, 256) for _ in range(t)] for _ in range(p)],
             "pool": _pool(rng, xo, rows, 3)}
@@ -285,7 +375,73 @@ def _stat_case(rng, target, G, layout):
         c["nself"] = 1 if (target in ("TwoWayCross", "FourWayCross") and rng.random() < 0.3) else 0
     return c
 
+# ------------------------------------------------------------------ entry points (enumerated at run time, fail closed)
+COVERED = {
+    "pybrops.breed.prot.mate.util": {"mat_meiosis": ["geno", "sel", "xoprob", "rng"], "mat_dh": ["geno", "sel", "xoprob", "rng"],
+                                     "mat_mate": ["fgeno", "mgeno", "fsel", "msel", "xoprob", "rng"]},
+    "pybrops.core.util.mate": {"dense_meiosis": ["geno", "sel", "xoprob", "rng"], "dense_dh": ["geno", "sel", "xoprob", "rng"],
+                               "dense_cross": ["fgeno", "mgeno", "fsel", "msel", "xoprob", "rng"]},
+}
+PROTO_SIG = {"__init__": ["self", "progeny_counter", "family_counter", "rng", "kwargs"],
+             "mate": ["self", "pgmat", "xconfig", "nmating", "nprogeny", "miscout", "nself", "kwargs"]}
+MAPFN_METHODS = {"mapfn": "through rprob1g / rprob1p and directly", "rprob1g": "covered", "rprob1p": "covered",
+                 "invmapfn": "SKIPPED: inverse map function, no meiosis depends on it (C11)",
+                 "rprob2g": "SKIPPED: pairwise matrices, not used by meiosis (C11, C12)", "rprob2p": "SKIPPED: pairwise matrices (C11, C12)"}
+DGMM_METHODS = {"interp_genpos": "covered", "interp_xoprob": "covered"}
+EMBV_METHODS = {"from_gmod": ["gmod", "pgmat", "nprogeny", "nrep", "kwargs"]}
+SKIPPED = {
+    "pybrops.breed.prot.mate.MatingProtocol": "abstract interface (no meiosis of its own)",
+    "mate(**kwargs) / __init__(**kwargs)": "forwarded to the constructor of the progeny matrix / ignored; no effect on meiosis",
+    "check_is_* functions": "type guards",
+    "nphase != 2": "the meiosis functions read copies 0 and 1 only (diploid assumption stated in ASSUMPTIONS)",
+}
+
+def _audit():
+    """every public function / class / method of the anchored modules is covered by a generator or listed with a reason;
+    a new one (or a changed parameter list) makes the check fail until it is classified"""
+    import importlib, inspect, pkgutil
+    bad = []
+    for mn, fns in COVERED.items():
+        mod = importlib.import_module(mn)
+        have = {n: v for n, v in vars(mod).items() if inspect.isfunction(v) and v.__module__ == mn and not n.startswith("_")}
+        for n in sorted(set(have) - set(fns)): bad.append("%s.%s is not covered by the C02 generators" % (mn, n))
+        for n, want in fns.items():
+            if n not in have: bad.append("%s.%s disappeared" % (mn, n)); continue
+            got = list(inspect.signature(have[n]).parameters)
+            if got != want: bad.append("%s.%s has parameters %s, the generators drive %s" % (mn, n, got, want))
+    import pybrops.breed.prot.mate as pm
+    mods = sorted(m.name for m in pkgutil.iter_modules(pm.__path__))
+    for m_ in mods:
+        if m_ in ("util", "MatingProtocol"): continue
+        if m_ not in PROTOS: bad.append("mating protocol module %s is not covered" % m_); continue
+        mod = importlib.import_module("pybrops.breed.prot.mate." + m_)
+        classes = [n for n, v in vars(mod).items() if inspect.isclass(v) and v.__module__ == mod.__name__]
+        if classes != [m_]: bad.append("module %s defines classes %s" % (m_, classes)); continue
+        cls = getattr(mod, m_)
+        for meth, want in PROTO_SIG.items():
+            got = list(inspect.signature(getattr(cls, meth)).parameters)
+            if got != want: bad.append("%s.%s has parameters %s, the generators drive %s" % (m_, meth, got, want))
+        pub = sorted(n for n, v in vars(cls).items() if not n.startswith("_") and callable(v))
+        if pub != ["mate"]: bad.append("%s has public methods %s (only mate is driven)" % (m_, pub))
+    for p_ in PROTOS:
+        if p_ not in mods: bad.append("mating protocol %s disappeared" % p_)
+    for mn in ("HaldaneMapFunction", "KosambiMapFunction"):
+        cls = getattr(importlib.import_module("pybrops.popgen.gmap." + mn), mn)
+        pub = sorted(n for n, v in vars(cls).items() if not n.startswith("_") and callable(v))
+        if pub != sorted(MAPFN_METHODS): bad.append("%s has public methods %s, classified: %s" % (mn, pub, sorted(MAPFN_METHODS)))
+    from pybrops.popgen.gmap.DenseGeneticMappableMatrix import DenseGeneticMappableMatrix as D
+    pub = sorted(n for n, v in vars(D).items() if not n.startswith("_") and callable(v))
+    if pub != sorted(DGMM_METHODS): bad.append("DenseGeneticMappableMatrix has public methods %s, classified: %s" % (pub, sorted(DGMM_METHODS)))
+    from pybrops.model.embvmat.DenseExpectedMaximumBreedingValueMatrix import DenseExpectedMaximumBreedingValueMatrix as B
+    pub = sorted(n for n, v in vars(B).items() if not n.startswith("_"))
+    if pub != sorted(EMBV_METHODS): bad.append("DenseExpectedMaximumBreedingValueMatrix has public members %s, classified: %s" % (pub, sorted(EMBV_METHODS)))
+    else:
+        got = list(inspect.signature(B.from_gmod).parameters)
+        if got != EMBV_METHODS["from_gmod"]: bad.append("from_gmod has parameters %s" % got)
+    if bad: raise RuntimeError("C02 entry-point audit: " + "; ".join(bad))
+
 def gen_cases(rng, tier):
+    _audit()
     quick = tier == "quick"
     cases = _corner_cases()
     for module, fn in UTILS:
@@ -293,10 +449,13 @@ def gen_cases(rng, tier):
         for _ in range(8 if quick else 120): cases.append(_util_case(rng, module, fn, real=True))
     for module in ("mat", "dense"):
         for m in (range(1, 6) if quick else range(1, 9)): cases.append(_sweep_case(module, m))
+    for module, fn in UTILS:
+        for t in range(2 if quick else 12): cases.append(_wide_case(rng, module, fn, big_n=(t % 2 == 0)))
     for proto in PROTOS:
         for _ in range(24 if quick else 420): cases.append(_proto_case(rng, proto))
         for _ in range(4 if quick else 60): cases.append(_proto_case(rng, proto, real=True))
     for _ in range(60 if quick else 900): cases.append(_map_case(rng))
+    for _ in range(2 if quick else 12): cases.append(_map_case(rng, many=True))
     for _ in range(40 if quick else 600): cases.append(_embv_case(rng))
     # statistical monitor
     G = 40000 if quick else 200000
@@ -333,18 +492,20 @@ def _lut(side):
     for code in side[1]: t[code + 128] = 1
     return t
 
-def _observe_proto(proto, xconfig, nself, res, pc=0):
-    """source side of every allele of both progeny copies, progeny in creation order; None where an allele is foreign"""
+def _observe_proto(proto, xconfig, nself, res, pc=0, fc=0, parents=None):
+    """source side of every allele of both progeny copies, progeny in creation order; None where an allele is foreign.
+    pc, fc: progeny / family counters before the call; parents(row) overrides the founder code sets (second generation)"""
     mat = res.mat; N = mat.shape[1]
     idx = numpy.array([int(str(t)[2:]) - pc for t in res.taxa], dtype=int) if N else numpy.zeros(0, dtype=int)
     if sorted(idx.tolist()) != list(range(N)): return None, "progeny names are not prefix + consecutive numbers"
     order = numpy.argsort(idx, kind="stable")
-    mat = mat[:, order, :]; fam = numpy.asarray(res.taxa_grp)[order]
+    mat = mat[:, order, :]; fam = numpy.asarray(res.taxa_grp)[order] - fc
     C = [numpy.zeros((N, mat.shape[2]), dtype="int8"), numpy.zeros((N, mat.shape[2]), dtype="int8")]
+    if N and not set(fam.tolist()) <= set(range(len(xconfig))): return None, "family labels are not family_counter + row of the cross configuration"
     for r, row in enumerate(xconfig):
         sel = numpy.flatnonzero(fam == r)
         if not len(sel): continue
-        par = _parents(proto, row, nself)
+        par = _parents(proto, row, nself) if parents is None else parents(row)
         for k in (0, 1):
             C[k][sel] = _lut(par[k])[mat[k][sel].astype(int) + 128]
     if (C[0] < 0).any() or (C[1] < 0).any(): return None, "a progeny allele does not come from the designated parent of the last meiosis"
@@ -389,36 +550,100 @@ def _snap(a): return (str(a.dtype), a.shape, a.tobytes())
 def _run_util(case):
     f = _util_fn(case["module"], case["fn"])
     n, p = case["n"], case["p"]
-    geno = numpy.array(_geno(None, n, p, case["gmode"]), dtype="int8").reshape(2, n, p)
-    xo = numpy.array([xf(x) for x in case["xoprob"]], dtype=float); sel = numpy.array(case["sel"], dtype="int64")
+    gdt = case.get("gdtype", "int8"); sdt = case.get("seldtype", "int64"); off = _goff(case)
+    geno = numpy.array(_geno(None, n, p, case["gmode"], off), dtype=gdt).reshape(2, n, p)
+    xo = numpy.array([xf(x) for x in case["xoprob"]], dtype=float); sel = numpy.array(case["sel"], dtype=sdt)
     rng = Real(case["seed"]) if "seed" in case else Pool(case["pool"])
-    b = [_snap(geno), _snap(xo), _snap(sel)]
+    ins = [geno, xo, sel]
     if case["fn"] == "mate":
-        geno2 = numpy.array(_geno(None, case["n2"], p, case["gmode"]), dtype="int8").reshape(2, case["n2"], p)
-        sel2 = numpy.array(case["sel2"], dtype="int64")
+        geno2 = numpy.array(_geno(None, case["n2"], p, case["gmode"], off), dtype=gdt).reshape(2, case["n2"], p)
+        sel2 = numpy.array(case["sel2"], dtype=sdt)
+        ins += [geno2, sel2]
+        b = [_snap(a) for a in ins]
         res = f(geno, geno2, sel, sel2, xo, rng)
     else:
+        b = [_snap(a) for a in ins]
         res = f(geno, sel, xo, rng)
     out = {"res": res.tolist(), "dtype": str(res.dtype), "shape": list(res.shape), "shapes": rng.shapes,
-           "ranges_ok": all(r == [0.0, 1.0] for r in rng.ranges), "unchanged": [_snap(geno), _snap(xo), _snap(sel)] == b}
+           "ranges_ok": all(r == [0.0, 1.0] for r in rng.ranges), "unchanged": [_snap(a) for a in ins] == b}
+    # aliasing: the result is a fresh, writable array; writing into one layer touches neither the other layer nor an input
+    alias = []
+    if isinstance(res, numpy.ndarray) and any(numpy.shares_memory(res, a) for a in ins): alias.append("result shares memory with an input")
+    if res.ndim == 3 and res.shape[0] == 2 and res.size:
+        keep = res[1].copy()
+        try:
+            res[0] += 1
+            if not numpy.array_equal(res[1], keep): alias.append("the two layers of the result share memory")
+        except ValueError:
+            alias.append("result is not writable")
+    elif res.size:
+        try: res += 1
+        except ValueError: alias.append("result is not writable")
+    if [_snap(a) for a in ins] != b: alias.append("writing into the result changed an input")
+    out["alias"] = sorted(set(alias))
     if "seed" in case: out["drawn"] = [_num53(a) for a in rng.drawn]
     return out
+
+def _route_g(g, route):
+    """the genotype matrix as the library itself hands it on"""
+    import copy
+    if route == "copy": return copy.copy(g)
+    if route == "deepcopy": return copy.deepcopy(g)
+    if route == "select_taxa": return g.select_taxa(numpy.arange(g.ntaxa))
+    if route == "setter_mat":
+        h = copy.deepcopy(g); m = g.mat.copy(); h.mat = numpy.zeros_like(m); h.mat = m
+        return h
+    return g
+
+def _mk_proto(cls, rng, route, pc, fc):
+    import importlib
+    if route == "setter":
+        prot = cls(progeny_counter=pc, family_counter=fc, rng=numpy.random.default_rng(1)); prot.rng = rng
+    elif route == "global":
+        mod = importlib.import_module(cls.__module__); old = mod.global_prng; mod.global_prng = rng
+        try: prot = cls(progeny_counter=pc, family_counter=fc, rng=None)
+        finally: mod.global_prng = old
+    else:
+        prot = cls(progeny_counter=pc, family_counter=fc, rng=rng)
+    return prot
+
+def _cnt(x): return x if isinstance(x, int) else numpy.array(x, dtype="int64")
 
 def _run_proto(case):
     import importlib
     proto = case["proto"]
     cls = getattr(importlib.import_module("pybrops.breed.prot.mate." + proto), proto)
     xo = [xf(x) for x in case["xoprob"]]
-    g = _build_pg(case["n"], case["p"], xo)
-    xc = numpy.array(case["xconfig"], dtype="int64")
-    nm = case["nmating"] if isinstance(case["nmating"], int) else numpy.array(case["nmating"], dtype="int64")
-    np_ = case["nprogeny"] if isinstance(case["nprogeny"], int) else numpy.array(case["nprogeny"], dtype="int64")
+    pre = case.get("pre"); pc = case.get("pc", 0); fc = case.get("fc", 0)
+    g = _build_pg(case["n"], case["p"], [xf(x) for x in pre["xoprob0"]] if pre and pre["kind"] == "session" else xo)
+    g = _route_g(g, case.get("groute", "direct"))
     rng = Real(case["seed"], keep=False) if "seed" in case else Pool(case["pool"])
-    prot = cls(progeny_counter=0, family_counter=0, rng=rng)
-    res = prot.mate(g, xc, nm, np_, nself=case["nself"])
-    out = {"shapes": rng.shapes, "ranges_ok": all(r == [0.0, 1.0] for r in rng.ranges), "N": int(res.mat.shape[1]),
-           "homozygous": bool(numpy.array_equal(res.mat[0], res.mat[1]))}
-    C, err = _observe_proto(proto, case["xconfig"], case["nself"], res)
+    prot = _mk_proto(cls, rng, case.get("rngroute", "ctor"), pc, fc)
+    parents = None; pre_n = 0
+    if pre:
+        r0 = prot.mate(g, numpy.array(pre["xconfig"], dtype="int64"), _cnt(pre["nmating"]), _cnt(pre["nprogeny"]), nself=case["nself"] if pre["kind"] == "session" else 0)
+        pc += int(r0.mat.shape[1]); fc += len(pre["xconfig"]); pre_n = len(rng.shapes)
+        if pre["kind"] == "session":
+            if pre["update"] == "setter": g.vrnt_xoprob = numpy.array(xo, dtype=float)
+            elif pre["update"] == "inplace": g.vrnt_xoprob[:] = numpy.array(xo, dtype=float)
+            else: g = _route_g(_build_pg(case["n"], case["p"], xo), case.get("groute", "direct"))
+        else:
+            # parents of the observed call: progeny t of the first call carries codes of founder a on copy 0 and of founder b on copy 1
+            fam = (numpy.asarray(r0.taxa_grp) - (fc - len(pre["xconfig"]))).tolist()
+            side = [(frozenset([2 * pre["xconfig"][f][0], 2 * pre["xconfig"][f][0] + 1]), frozenset([2 * pre["xconfig"][f][1], 2 * pre["xconfig"][f][1] + 1])) for f in fam]
+            parents = lambda row: [side[row[0]], side[row[1]]]
+            g = r0
+    xc = numpy.array(case["xconfig"], dtype="int64")
+    snap = [_snap(g.mat), _snap(numpy.asarray(g.vrnt_xoprob)), _snap(xc)]
+    misc = {} if case.get("miscout") else None
+    res = prot.mate(g, xc, _cnt(case["nmating"]), _cnt(case["nprogeny"]), misc, case["nself"]) if case.get("miscout") is not None \
+        else prot.mate(g, xc, _cnt(case["nmating"]), _cnt(case["nprogeny"]), nself=case["nself"])
+    out = {"shapes": rng.shapes[pre_n:], "skip": sum(a * b for a, b in rng.shapes[:pre_n]), "ranges_ok": all(r == [0.0, 1.0] for r in rng.ranges), "N": int(res.mat.shape[1]),
+           "homozygous": bool(numpy.array_equal(res.mat[0], res.mat[1])),
+           "unchanged": [_snap(g.mat), _snap(numpy.asarray(g.vrnt_xoprob)), _snap(xc)] == snap,
+           "xoprob_kept": res.vrnt_xoprob is not None and _snap(numpy.asarray(res.vrnt_xoprob, dtype=float)) == _snap(numpy.array(xo, dtype=float)),
+           "counters": [int(prot.progeny_counter) - pc, int(prot.family_counter) - fc]}
+    C, err = _observe_proto(proto, case["xconfig"], case["nself"], res, pc, fc, parents)
     out["obs_error"] = err
     if C is not None: out["src"] = [C[0].tolist(), C[1].tolist()]
     if "seed" in case: out["drawn"] = [_num53(a) for a in rng.drawn[-2:]]
@@ -433,9 +658,23 @@ def _run_map(case):
         g = DensePhasedGenotypeMatrix(numpy.zeros((2, 2, nv), dtype="int8"), vrnt_chrgrp=qc.copy(), vrnt_phypos=qp.copy())
     else:
         g = DenseGenotypeMatrix(numpy.zeros((2, nv), dtype="int8"), vrnt_chrgrp=qc.copy(), vrnt_phypos=qp.copy(), ploidy=2)
+    g = _route_g(g, case.get("groute", "direct"))
+    if case.get("pre"):                       # an earlier interpolation of the same object must leave no trace
+        _interp(g, case["pre"])
     _interp(g, case)
-    return {"chr": [int(x) for x in g.vrnt_chrgrp], "phy": [int(x) for x in g.vrnt_phypos],
-            "genpos": [fx(x) for x in g.vrnt_genpos], "xoprob": [fx(x) for x in g.vrnt_xoprob]}
+    out = {"chr": [int(x) for x in g.vrnt_chrgrp], "phy": [int(x) for x in g.vrnt_phypos],
+           "genpos": [fx(x) for x in g.vrnt_genpos], "xoprob": [fx(x) for x in g.vrnt_xoprob]}
+    # the other entry points that hand out sequential crossover probabilities must agree bit for bit with what interp_xoprob stored
+    gm = _mk_gmap(case); f = _fnobj(case["fn"])
+    with numpy.errstate(all="ignore"):
+        a1 = f.rprob1g(gm, g.vrnt_chrgrp, g.vrnt_genpos); a2 = f.rprob1p(gm, g.vrnt_chrgrp, g.vrnt_phypos)
+        a3 = f.mapfn(gm.gdist1g(g.vrnt_chrgrp, g.vrnt_genpos)); a4 = f.mapfn(gm.gdist1p(g.vrnt_chrgrp, g.vrnt_phypos))
+        gp = gm.interp_genpos(g.vrnt_chrgrp, g.vrnt_phypos)
+    same = lambda a, b: numpy.asarray(a).shape == numpy.asarray(b).shape and bool(numpy.array_equal(numpy.asarray(a), numpy.asarray(b), equal_nan=True))
+    out["routes"] = {"rprob1g": same(a1, g.vrnt_xoprob), "rprob1p": same(a2, g.vrnt_xoprob), "mapfn(gdist1g)": same(a3, g.vrnt_xoprob),
+                     "mapfn(gdist1p)": same(a4, g.vrnt_xoprob), "interp_genpos": same(gp, g.vrnt_genpos)}
+    out["fresh"] = not (numpy.shares_memory(g.vrnt_xoprob, g.vrnt_genpos) or numpy.shares_memory(g.vrnt_genpos, g.vrnt_phypos))
+    return out
 
 def _run_embv(case):
     import pybrops.model.embvmat.DenseExpectedMaximumBreedingValueMatrix as M
@@ -443,8 +682,11 @@ def _run_embv(case):
     from pybrops.popgen.gmat.DensePhasedGenotypeMatrix import DensePhasedGenotypeMatrix
     geno = numpy.array(case["geno"], dtype="int8"); n = geno.shape[1]
     xo = numpy.array([xf(x) for x in case["xoprob"]], dtype=float)
-    pg = DensePhasedGenotypeMatrix(geno, vrnt_xoprob=xo, taxa=numpy.array(["T%d" % i for i in range(n)], dtype=object),
-                                   taxa_grp=numpy.arange(n, dtype="int64"))
+    route = case.get("groute", "direct")
+    pg = DensePhasedGenotypeMatrix(geno, vrnt_xoprob=(numpy.full(len(xo), 0.5) if route == "xosetter" else xo),
+                                   taxa=numpy.array(["T%d" % i for i in range(n)], dtype=object), taxa_grp=numpy.arange(n, dtype="int64"))
+    if route == "xosetter": pg.vrnt_xoprob = xo                       # crossover probabilities replaced after construction
+    else: pg = _route_g(pg, route)
     beta = numpy.array(case["beta"], dtype=float) / 256.0; u = numpy.array(case["u"], dtype=float) / 256.0
     t = beta.shape[1]
     gmod = DenseAdditiveLinearGenomicModel(beta, None, u, trait=numpy.array(["t%d" % i for i in range(t)], dtype=object))
@@ -456,7 +698,8 @@ def _run_embv(case):
     res = M.DenseExpectedMaximumBreedingValueMatrix.from_gmod(gmod, pg, npg, nrp)
     val = res.unscale()
     return {"embv": [[fx(x) for x in r] for r in numpy.asarray(val, dtype=float)], "shapes": rng.shapes, "used": rng.pos,
-            "ranges_ok": all(r == [0.0, 1.0] for r in rng.ranges), "taxa": [str(x) for x in res.taxa], "unchanged": _snap(pg.mat) == before}
+            "ranges_ok": all(r == [0.0, 1.0] for r in rng.ranges), "taxa": [str(x) for x in res.taxa],
+            "unchanged": _snap(pg.mat) == before and _snap(numpy.asarray(pg.vrnt_xoprob)) == _snap(xo)}
 
 def _counts(Cs):
     """sufficient statistics of the monitor; Cs: list of (N,p) 0/1 source matrices (one per progeny copy)"""
@@ -571,11 +814,11 @@ def _decode_py(g0, g1, gam):
 def _util_layers(case, out):
     """[(geno, sel, gametes)] per uniform matrix"""
     n, p = case["n"], case["p"]
-    G = _geno(None, n, p, case["gmode"])
+    G = _geno(None, n, p, case["gmode"], _goff(case))
     res = out["res"]
     if case["fn"] == "meiosis": return [(G, case["sel"], res)]
     if case["fn"] == "dh": return [(G, case["sel"], res[0])]
-    return [(G, case["sel"], res[0]), (_geno(None, case["n2"], p, case["gmode"]), case["sel2"], res[1])]
+    return [(G, case["sel"], res[0]), (_geno(None, case["n2"], p, case["gmode"], _goff(case)), case["sel2"], res[1])]
 
 def _obs_rows(G, sel, gams):
     rows = []
@@ -597,6 +840,10 @@ def emit_case(case, out):
         for (G, sel, gams), rnd in zip(layers, draws):
             obs = _obs_rows(G, sel, gams)
             if obs is None: return "false"
+            if len(G[0]) > 8:
+                # many individuals: ship only the selected ones (the model reads no other row); sel becomes positions in that list
+                if any(not (0 <= t < len(G[0])) for t in sel): return "false"
+                keep = sorted(set(sel)); G = [[G[c][t] for t in keep] for c in range(2)]; sel = [keep.index(t) for t in sel]
             parts.append("check_meiosis %s %s %s %s %s %s" % (Zl3(G), Nl(sel), X, Q53ll(rnd), Zl2(gams), Bll(obs)))
             if "seed" in case: parts.append("draws_ok %s %s" % (Q53ll(rnd), X))
         if case["fn"] == "dh": parts.append("zll_eqb %s %s" % (Zl2(out["res"][0]), Zl2(out["res"][1])))
@@ -611,7 +858,7 @@ def emit_case(case, out):
             if any(d is None for d in out["drawn"]): return "false"
             last = out["drawn"][-(1 if dh else 2):]
         else:
-            last = _carve(case["pool"], out["shapes"])[-(1 if dh else 2):]
+            last = _carve(case["pool"][out.get("skip", 0):], out["shapes"])[-(1 if dh else 2):]
         N = out["N"]
         srcs = [out["src"][0]] if dh else out["src"]
         if len(last) != len(srcs): return "false"
@@ -657,7 +904,7 @@ def _pred_util(case, out):
     fn = case["fn"]; p = case["p"]; k = len(case["sel"])
     want_shape = [k, p] if fn == "meiosis" else [2, k, p]
     if out["shape"] != want_shape: return ["result shape %s, expected %s" % (out["shape"], want_shape)]
-    if out["dtype"] != "int8": bad.append("result dtype %s" % out["dtype"])
+    if out["dtype"] != case.get("gdtype", "int8"): bad.append("result dtype %s, genotype dtype %s" % (out["dtype"], case.get("gdtype", "int8")))
     layers = _util_layers(case, out)
     if out["shapes"] != [[k, p]] * len(layers): return bad + ["uniform requests %s, expected %s" % (out["shapes"], [[k, p]] * len(layers))]
     if "seed" in case and any(d is None for d in out["drawn"]): return bad + ["a generator draw is not k/2^53 with 0 <= k < 2^53"]
@@ -675,6 +922,7 @@ def _pred_util(case, out):
     if fn == "dh" and out["res"][0] != out["res"][1]: bad.append("doubled haploid not homozygous")
     if not out["ranges_ok"]: bad.append("uniform draws requested outside [0,1)")
     if not out["unchanged"]: bad.append("an input array was modified")
+    for a in out.get("alias", []): bad.append("aliasing: " + a)
     return bad
 
 def _pred_proto(case, out):
@@ -692,7 +940,7 @@ def _pred_proto(case, out):
         if any(d is None for d in out["drawn"]): return bad + ["a generator draw is not k/2^53 with 0 <= k < 2^53"]
         last = out["drawn"][-nlast:]
     else:
-        last = _carve(case["pool"], out["shapes"])[-nlast:]
+        last = _carve(case["pool"][out.get("skip", 0):], out["shapes"])[-nlast:]
     xo = [Fraction(xf(x)) for x in case["xoprob"]]
     for k, rnd in enumerate(last):
         ref = _ref_rows(xo, rnd); obs = out["src"][k]
@@ -703,6 +951,9 @@ def _pred_proto(case, out):
                            % (i, k, j, a[j], i, b[j])); break
     if dh and (not out["homozygous"] or out["src"][0] != out["src"][1]): bad.append("doubled haploid progeny are not homozygous")
     if not out["ranges_ok"]: bad.append("uniform draws requested outside [0,1)")
+    if not out.get("unchanged", True): bad.append("the parental genotype matrix, its crossover probabilities or the cross configuration were modified by mate()")
+    if not out.get("xoprob_kept", True): bad.append("the progeny matrix does not carry the parents' crossover probabilities (the next generation would recombine differently)")
+    if out.get("counters", [N, nc]) != [N, nc]: bad.append("progeny/family counters advanced by %s, expected %s" % (out.get("counters"), [N, nc]))
     return bad
 
 def _mapfn(fn, d):
@@ -741,7 +992,9 @@ def _pred_mapped(m, chr_, phy, genpos, xoprob, check_pos=True):
             if d < -1e-12 * (1.0 + abs(genpos[j])): bad.append("harness: non-monotone map"); continue
             w = _mapfn(m["fn"], d)
             if not abs(xoprob[j] - w) <= 1e-12: bad.append("marker %d: crossover probability %r, map function of the gap %r is %r" % (j, xoprob[j], d, w))
-            if not (-1e-12 <= xoprob[j] < 0.5): bad.append("marker %d: crossover probability %r outside [0, 1/2)" % (j, xoprob[j]))
+            # beyond 9 Morgans the binary64 value of either map function is exactly 1/2 (1 - tanh(2d) and exp(-2d) drop below 2^-53)
+            if not (-1e-12 <= xoprob[j] < 0.5 or (d >= 9.0 and xoprob[j] == 0.5)):
+                bad.append("marker %d: crossover probability %r outside [0, 1/2)" % (j, xoprob[j]))
     if m["fn"] == "haldane":                    # independent adjacent crossovers compose to the pairwise map function
         for i in range(n):
             t = 1.0
@@ -754,7 +1007,11 @@ def _pred_mapped(m, chr_, phy, genpos, xoprob, check_pos=True):
     return bad
 
 def _pred_map(case, out):
-    return _pred_mapped(case, out["chr"], out["phy"], [xf(x) for x in out["genpos"]], [xf(x) for x in out["xoprob"]])
+    bad = _pred_mapped(case, out["chr"], out["phy"], [xf(x) for x in out["genpos"]], [xf(x) for x in out["xoprob"]])
+    for k, ok in sorted(out.get("routes", {}).items()):
+        if not ok: bad.append("%s on the same map and markers differs from what interp_xoprob stored" % k)
+    if out.get("fresh") is False: bad.append("aliasing: the stored crossover probabilities / genetic positions share memory with another label array")
+    return bad
 
 def _pred_embv(case, out):
     bad = []
@@ -885,3 +1142,10 @@ def describe(case, out):
     elif k == "embv": d.update({"target": "embv.from_gmod", "markers": len(case["xoprob"])})
     else: d.update({"target": "stat:" + (case["target"] if isinstance(case["target"], str) else "_".join(case["target"])), "layout": case["layout"]})
     return d
+
+
+def translate(repo, gen_dir):
+    """regenerate Gen/C02_Kernel.v (bodies of mat_meiosis/dense_meiosis, dh/mate wrappers, map functions, gdist1g expressions,
+    rprob1g/interp_xoprob/from_gmod wiring) from the current source; fail closed"""
+    from translate import c02_kernel
+    return [c02_kernel.translate(repo, gen_dir)]
